@@ -4,7 +4,7 @@ set -u
 ID=$1; SRC=$2; shift 2
 CHECKS="${@:-$ID}"
 export GOFLAGS=-mod=mod GOPROXY=off GOSUMDB=off GOTOOLCHAIN=local
-DST=/verif/seeded/$ID
+DST=/verif/seeded/$ID${SEED_SUFFIX:-}
 mkdir -p $DST
 cp $SRC/SEED/patch.diff $DST/ 2>/dev/null
 cp $SRC/SEED/meta.json $DST/meta.agent.json 2>/dev/null
